@@ -124,7 +124,7 @@ Qed.
 Lemma in_inv_step st ev : InInv st -> InInv (step st ev).
 Proof.
   intro Hinv. unfold Model.step. destruct (dead st) eqn:Ed; [exact Hinv|].
-  destruct ev as [msgs s|r msgs s].
+  destruct ev as [msgs s|r msgs s|]; [| |split; reflexivity].
   - destruct (send_in msgs s st) as (A & B & C). eapply in_inv_same; eauto.
   - destruct r as [b| |c]; cbn [Model.read].
     + destruct b as [|b0 b'].
@@ -164,6 +164,18 @@ Theorem in_stream_any_trace tr :
 Proof.
   cbn zeta. destruct (in_inv_run tr _ in_inv_init) as [H1 H2]. split; [exact H1|].
   intro Hd. destruct (snd (spec_in (received (run_trace (init M) tr)))); [congruence|auto].
+Qed.
+
+(* A reconnect leaves nothing of the previous connection behind (repair of
+   C11.F47): whatever happened before -- half-sent message in the out-buffer,
+   beginning of a line in the in-buffer, EAGAIN count -- the driver continues
+   exactly like a fresh one on the new socket. *)
+Theorem reconnect_fresh tr1 tr2 :
+  dead (run_trace (init M) tr1) = None ->
+  run_trace (init M) (tr1 ++ EvReconnect :: tr2) = run_trace (init M) tr2.
+Proof.
+  intro Hd. unfold Model.run_trace. rewrite fold_left_app. cbn [fold_left].
+  fold (run_trace (init M) tr1). unfold Model.step at 2. rewrite Hd. unfold Model.reconnect. rewrite Hd. reflexivity.
 Qed.
 
 (* ---------------------------------------------------------------- *)
